@@ -114,7 +114,9 @@ func (rt *Transfer) Do(c *rsyncwire.Conn, fileList []*File, noReport bool) (*rsy
 	if err := eg.Wait(); err != nil {
 		return nil, err
 	}
-	if rt.retouchDirPerms /* || rt.retouchDirTimes */ {
+	// Creating files inside a directory changes its modification time, so
+	// directory times can only be set once both goroutines have finished.
+	if rt.retouchDirPerms || (rt.Opts.PreserveTimes && !rt.listOnly()) {
 		if err := rt.touchUpDirs(fileList); err != nil {
 			return nil, err
 		}
